@@ -244,6 +244,9 @@ impl WorkerState for W {
         if case.get(2).and_then(|c| c.first()).map(|b| b % 4 == 3).unwrap_or(false) {
             return self.builtins_under_threads(case, render);
         }
+        if case.get(2).and_then(|c| c.first()).map(|b| b % 8 == 2).unwrap_or(false) {
+            return self.compile_storm(case, render);
+        }
         let empty: Vec<u8> = Vec::new();
         let prog = self.program(case.first().unwrap_or(&empty), case.get(1).unwrap_or(&empty));
         let (src, compiled) = compile_program(&self.rt, &prog, Parens::Minimal);
@@ -380,6 +383,93 @@ impl WorkerState for W {
 }
 
 impl W {
+    /// (d) many threads compile, call and drop packages of one runtime whose registered closures
+    /// and constants hold drop-tracked values: results must be right, nothing may be released
+    /// while the runtime is alive and everything exactly once after it was dropped
+    fn compile_storm(&mut self, case: &Case, render: bool) -> Outcome {
+        use crate::props::c11;
+        let empty: Vec<u8> = Vec::new();
+        let ctl = case.get(2).unwrap_or(&empty);
+        let mut c = Choices::new(ctl.get(1..).unwrap_or(&[]));
+        let n_threads = 3 + c.below(6);
+        let cycles = 10 + c.below(40);
+        let k = 40 + c.below(20) as i32;
+        host::reset(vec![]);
+        let base = c11::live_by_tag();
+        let base_tz = host::live_count().1;
+        let rt = Arc::new(c11::build_runtime(k));
+        let barrier = Arc::new(Barrier::new(n_threads));
+        let mut hs = Vec::new();
+        for t in 0..n_threads {
+            let (rt, barrier) = (rt.clone(), barrier.clone());
+            hs.push(std::thread::spawn(move || -> Result<(), String> {
+                barrier.wait();
+                let mut kept: Vec<roto::TypedFunc<NoCtx, fn(i32) -> i32>> = Vec::new();
+                for i in 0..cycles {
+                    let v = 1 + ((t + i) % 3) as i32;
+                    let mut pkg = host::compile(&rt, &c11::script(v))?;
+                    let f = pkg.get_function::<fn(i32) -> i32>("f").map_err(|e| format!("{e}"))?;
+                    let g = f.clone();
+                    drop(pkg);
+                    let x = (i as i32) - 7;
+                    let want = x.wrapping_mul(v).wrapping_add(300 + v).wrapping_add(100 + k).wrapping_add(200 + k).wrapping_sub(100);
+                    let got = g.call(x);
+                    if got != want {
+                        return Err(format!("thread {t}, cycle {i}: f({x}) of version {v} returned {got}, expected {want}"));
+                    }
+                    drop(f);
+                    if i % 5 == 0 {
+                        kept.push(g);
+                        if kept.len() > 3 {
+                            kept.remove(0);
+                        }
+                    }
+                }
+                Ok(())
+            }));
+        }
+        let mut err = None;
+        for h in hs {
+            match h.join() {
+                Ok(Ok(())) => {}
+                Ok(Err(e)) => err = Some(e),
+                Err(_) => err = Some("a thread panicked".to_string()),
+            }
+        }
+        crate::worker::take_panic();
+        let text = format!("compile storm: {n_threads} threads x {cycles} cycles of compile / get_function / clone / drop package / call / drop handle on one runtime (k = {k})");
+        if let Some(e) = err {
+            return Outcome::fail("compile-storm:wrong-result", format!("{e}\n{text}"));
+        }
+        // the runtime is still alive: its constant and captured values must be too
+        let now = c11::live_by_tag();
+        for tag in [100 + k, 200 + k, 500 + k, 600 + k, 400 + k] {
+            let n = now.get(&tag).copied().unwrap_or(0).saturating_sub(base.get(&tag).copied().unwrap_or(0));
+            if n != 1 {
+                return Outcome::fail("compile-storm:released-too-early", format!("{n} values with tag {tag} are alive while the runtime still is (expected 1)\n{text}"));
+            }
+        }
+        drop(rt);
+        let end = c11::live_by_tag();
+        if end != base || host::live_count().1 != base_tz {
+            let extra: Vec<_> = end.iter().filter(|(t, n)| base.get(t).copied().unwrap_or(0) != **n).collect();
+            return Outcome::fail("compile-storm:not-released", format!("after dropping the runtime and every package and handle these tags are still alive: {extra:?} (zero-sized: {})\n{text}", host::live_count().1 - base_tz));
+        }
+        let anomalies = host::anomalies();
+        if !anomalies.is_empty() {
+            return Outcome::fail(format!("compile-storm:{}", crate::props::prog::anomaly_kind(&anomalies[0])), format!("{anomalies:?}\n{text}"));
+        }
+        let mut o = Outcome::pass();
+        o.evals = (n_threads * cycles) as u64;
+        o.nontrivial = true;
+        o.classes.push("compile-storm".into());
+        o.hash = fnv(text.as_bytes()) ^ fnv(&case.concat());
+        if render {
+            o.render = Some(text);
+        }
+        o
+    }
+
     /// (c) the built-in catalogue of C17 called from several threads at once, every call
     /// compared with the documented meaning (which does not depend on other threads)
     fn builtins_under_threads(&mut self, case: &Case, render: bool) -> Outcome {
@@ -470,7 +560,7 @@ impl Prop for C12P {
         "C12"
     }
     fn rule(&self) -> String {
-        "(a) stress: generated programs of the ownership profile (strings, lists, records, tracked host values, host calls); 2-8 threads released by a barrier make 50-200 calls each on clones of one handle with rotating input vectors while 0-2 further threads compile the same script, get the function and drop package and handle; oracle: every call returns the single-threaded result and produces the single-threaded host-call log, tracked values balance after all threads joined, no crash (worker isolation). Non-trivial: at least two calling threads overlapped in time (start/end stamps) and the function allocates or calls a host function. (c) one case in four: the built-in catalogue of C17 (strings, views, lists incl. join, numbers, addresses) called from 2-4 pool threads at once, each with its own package, identical or different argument streams, every call compared with the documented meaning; (b) ten rustc probes (Cell and RefCell captures shared through scoped threads or a cloned handle must be rejected, Rc control must be rejected, Atomic / Mutex / plain fn controls must be accepted), type-checked against the harness's libroto; distinct by program text / probe".into()
+        "(a) stress: generated programs of the ownership profile (strings, lists, records, tracked host values, host calls); 2-8 threads released by a barrier make 50-200 calls each on clones of one handle with rotating input vectors while 0-2 further threads compile the same script, get the function and drop package and handle; oracle: every call returns the single-threaded result and produces the single-threaded host-call log, tracked values balance after all threads joined, no crash (worker isolation). Non-trivial: at least two calling threads overlapped in time (start/end stamps) and the function allocates or calls a host function. (c) one case in four: the built-in catalogue of C17 (strings, views, lists incl. join, numbers, addresses) called from 2-4 pool threads at once, each with its own package, identical or different argument streams, every call compared with the documented meaning; (d) one case in eight: 3-8 threads x 10-50 cycles of compile / get_function / clone / drop package / call / drop handle on one runtime whose registered closures and constants hold drop-tracked values: results right, nothing released while the runtime lives, everything released exactly once afterwards; (b) ten rustc probes (Cell and RefCell captures shared through scoped threads or a cloned handle must be rejected, Rc control must be rejected, Atomic / Mutex / plain fn controls must be accepted), type-checked against the harness's libroto; distinct by program text / probe".into()
     }
     fn assumptions(&self) -> Vec<String> {
         vec![
